@@ -266,3 +266,18 @@ reg("C15", "E4-crash-points",
     "Crash = process kill at Python-visible file-system calls; SQLite atomicity trusted; no power-loss model "
     "(dvc-data never fsyncs). Temp names tolerated. A valid object left writable after the re-run is only counted.",
     "DESIGN.md §4 C15")
+
+reg("C16", "E5-schedules",
+    "stateless model checking of the real writers under a cooperative scheduler: iterative preemption-bounded (CHESS) exploration of all schedules at file-system-operation boundaries, threads and processes",
+    "2 writers (and one 3-writer workload) running the real build + transfer of identical / overlapping / "
+    "same-content-under-two-paths trees into one LocalHashFileDB with one shared State database, as real threads "
+    "sharing the odb and State objects and as forked processes sharing only the disk, x which object is first in "
+    "an add batch x privilege {as invoked, CAP_DAC_OVERRIDE/FOWNER dropped}. Scheduling points: every audit-hook "
+    "file-system event on the shared store/state directories and the store's stat helper (~57 per 2-writer run). "
+    "Every schedule with <= 2 preemptions (deep config) / <= 1 (others; thorough: 3 / 2) is executed: ~5.6*10^3 "
+    "(quick) schedules; each replays deterministically. Oracle: no writer raises or reports failures, every "
+    "requested object present with right bytes, every object matches its name, valid state rows are truthful, "
+    "exactly one final outcome per configuration. F6 (capabilities dropped) is a known finding (3 signatures).",
+    "Exactly one writer runs between scheduling points; races inside C extensions (sqlite, hashlib) and on "
+    "in-memory structures between points are not modelled. Private workspace events are not points.",
+    "DESIGN.md §4 C16")
